@@ -1257,7 +1257,7 @@ func (ctx *RenderContext) getItem(container, index interface{}) (interface{}, er
 }
 
 // getAttribute gets an attribute from an object
-func (ctx *RenderContext) getAttribute(obj interface{}, attr string) (interface{}, error) {
+func (ctx *RenderContext) getAttribute(obj interface{}, attr string) (result interface{}, err error) {
 	if obj == nil {
 		// Instead of returning an error for nil objects, return nil value
 		return nil, nil
@@ -1393,6 +1393,14 @@ func (ctx *RenderContext) getAttribute(obj interface{}, attr string) (interface{
 	// Try method access
 	if entry.isMethod && entry.methodIndex >= 0 {
 		var method reflect.Value
+
+		// Reaching a method through a nil embedded pointer panics inside reflect:
+		// report it as an error of this attribute access
+		defer func() {
+			if r := recover(); r != nil {
+				result, err = nil, fmt.Errorf("cannot call method '%s': %v", attr, r)
+			}
+		}()
 
 		if entry.ptrMethod {
 			// Need a pointer to the struct
